@@ -1301,3 +1301,211 @@ pub fn cfi(rng: &mut Rng, be: bool, asz: u8) -> CfiOut {
     }
     CfiOut { eh_frame: eh.v, debug_frame: df.v, eh_frame_hdr: h.v, fdes }
 }
+
+// ---------------------------------------------------------------------------------------
+// .debug_names and .debug_cu_index / .debug_tu_index
+
+pub fn djb_hash(s: &[u8]) -> u32 {
+    let mut h: u32 = 5381;
+    for &b in s {
+        h = h.wrapping_mul(33).wrapping_add(b as u32);
+    }
+    h
+}
+
+/// Returns (.debug_names, .debug_str, hashes used).
+pub fn names(rng: &mut Rng, be: bool) -> (Vec<u8>, Vec<u8>, Vec<u32>) {
+    let mut a = Asm::new(be);
+    let mut strs = Asm::new(be);
+    let mut all_hashes = Vec::new();
+    for _ in 0..1 + rng.usize(2) {
+        let d64 = rng.chance(1, 5);
+        let w = if d64 { 8 } else { 4 };
+        let tok = a.begin_len(d64);
+        a.u16(if rng.chance(1, 24) { 4 } else { 5 }).u16(0);
+        let ncu = rng.usize(3) as u32;
+        let nltu = rng.usize(2) as u32;
+        let nftu = rng.usize(2) as u32;
+        let nnames = rng.usize(6) as u32;
+        let nbuckets = if rng.chance(1, 4) { 0 } else { 1 + rng.usize(4) as u32 };
+        // names, sorted by bucket as the format requires
+        let mut nm: Vec<(Vec<u8>, u32)> = (0..nnames)
+            .map(|_| {
+                let n = name(rng);
+                let h = if rng.chance(1, 6) { 7 } else { djb_hash(&n) }; // colliding hashes sometimes
+                (n, h)
+            })
+            .collect();
+        if nbuckets > 0 {
+            nm.sort_by_key(|x| x.1 % nbuckets);
+        }
+        // abbreviations
+        let nabbrev = 1 + rng.usize(3);
+        let mut abbrevs: Vec<(u64, Vec<(u64, u64)>)> = Vec::new();
+        let mut ab = Asm::new(be);
+        for i in 0..nabbrev {
+            let code = if rng.chance(1, 10) { rng.interesting().max(1) } else { i as u64 + 1 };
+            let mut attrs = Vec::new();
+            for _ in 0..rng.usize(4) {
+                let idx = if rng.chance(1, 10) { rng.below(0x4000) } else { *rng.pick(&[1u64, 2, 3, 4, 5]) };
+                let form = if rng.chance(1, 12) { rng.below(0x30) } else { *rng.pick(&[0x0bu64, 0x05, 0x06, 0x07, 0x0f, 0x11, 0x12, 0x13, 0x14, 0x15, 0x19, 0x0c]) };
+                attrs.push((idx, form));
+            }
+            ab.uleb(code).uleb(*rng.pick(&[0x2eu64, 0x34, 0x13, 0x24, 0]));
+            for (i, f) in &attrs {
+                ab.uleb(*i).uleb(*f);
+            }
+            ab.u8(0).u8(0);
+            abbrevs.push((code, attrs));
+        }
+        if !rng.chance(1, 10) {
+            ab.u8(0);
+        }
+        let abbrev_size = (ab.len() as u32).wrapping_add(lie(rng) as u32);
+        let counts = [ncu, nltu, nftu, nbuckets, nnames, abbrev_size];
+        for (k, c) in counts.iter().enumerate() {
+            a.u32(if rng.chance(1, 40) { rng.interesting() as u32 } else { *c });
+            let _ = k;
+        }
+        let aug: &[u8] = if rng.chance(1, 3) { b"LLVM0700" } else if rng.chance(1, 8) { b"abc" } else { b"" };
+        a.u32(aug.len() as u32).bytes(aug);
+        a.align(4);
+        for _ in 0..ncu + nltu {
+            a.word(rng.below(0x1000), d64);
+        }
+        for _ in 0..nftu {
+            a.u64(rng.next());
+        }
+        // buckets: 1-based index of the first name in each bucket, 0 if empty
+        for b in 0..nbuckets {
+            let first = nm.iter().position(|x| x.1 % nbuckets == b);
+            a.u32(match first {
+                Some(i) if !rng.chance(1, 16) => i as u32 + 1,
+                Some(_) => rng.interesting() as u32,
+                None => 0,
+            });
+        }
+        if nbuckets > 0 {
+            for (_, h) in &nm {
+                a.u32(*h);
+                all_hashes.push(*h);
+            }
+        }
+        for (n, _) in &nm {
+            a.word(strs.len() as u64, d64);
+            strs.cstr(n);
+        }
+        // entry pool
+        let mut pool = Asm::new(be);
+        let mut entry_offs = Vec::new();
+        for _ in 0..nnames {
+            entry_offs.push(pool.len() as u64);
+            for _ in 0..1 + rng.usize(2) {
+                let (code, attrs) = rng.pick(&abbrevs).clone();
+                pool.uleb(if rng.chance(1, 24) { rng.interesting() } else { code });
+                for (_, f) in &attrs {
+                    match *f {
+                        0x0b | 0x0c | 0x11 => {
+                            pool.u8(rng.below(4) as u8);
+                        }
+                        0x05 | 0x12 => {
+                            pool.u16(rng.below(4) as u16);
+                        }
+                        0x06 | 0x13 => {
+                            pool.u32(if rng.chance(1, 8) { rng.interesting() as u32 } else { rng.below(64) as u32 });
+                        }
+                        0x07 | 0x14 => {
+                            pool.u64(rng.interesting());
+                        }
+                        0x0f | 0x15 => {
+                            pool.uleb(rng.interesting());
+                        }
+                        _ => {}
+                    }
+                }
+            }
+            if !rng.chance(1, 12) {
+                pool.u8(0);
+            }
+        }
+        for o in &entry_offs {
+            a.word(if rng.chance(1, 16) { rng.interesting() } else { *o }, d64);
+        }
+        a.bytes(&ab.v);
+        a.bytes(&pool.v);
+        let _ = w;
+        let d = lie(rng);
+        a.end_len(tok, d);
+    }
+    (a.v, strs.v, all_hashes)
+}
+
+/// .debug_cu_index / .debug_tu_index (version 2 and 5). Returns (bytes, ids present).
+pub fn unit_index(rng: &mut Rng, be: bool, max_contrib: u32) -> (Vec<u8>, Vec<u64>) {
+    let mut a = Asm::new(be);
+    let v5 = rng.bool();
+    if v5 {
+        a.u16(if rng.chance(1, 16) { 4 } else { 5 }).u16(0);
+    } else {
+        a.u32(if rng.chance(1, 16) { 3 } else { 2 });
+    }
+    let nsec = 1 + rng.usize(6) as u32;
+    let nunits = rng.usize(5) as u32;
+    // load factors up to full-1
+    let mut slots = 1u32;
+    while slots <= nunits {
+        slots *= 2;
+    }
+    if rng.chance(1, 3) {
+        slots *= 2;
+    }
+    if nunits == 0 && rng.bool() {
+        slots = 0;
+    }
+    a.u32(if rng.chance(1, 24) { rng.interesting() as u32 } else { nsec });
+    a.u32(if rng.chance(1, 24) { rng.interesting() as u32 } else { nunits });
+    a.u32(if rng.chance(1, 24) { rng.interesting() as u32 } else { slots });
+    let mut ids = vec![0u64; slots as usize];
+    let mut rows = vec![0u32; slots as usize];
+    let mut present = Vec::new();
+    for u in 0..nunits {
+        if slots == 0 {
+            break;
+        }
+        let id = if rng.chance(1, 3) { (rng.below(4) << 32) | 5 } else { rng.next() | 1 }; // colliding primaries
+        let mask = (slots - 1) as u64;
+        let mut h = id & mask;
+        let h2 = ((id >> 32) & mask) | 1;
+        let mut tries = 0;
+        while ids[h as usize] != 0 && tries < slots {
+            h = (h + h2) & mask;
+            tries += 1;
+        }
+        if ids[h as usize] == 0 {
+            ids[h as usize] = id;
+            rows[h as usize] = u + 1;
+            present.push(id);
+        }
+    }
+    for i in &ids {
+        a.u64(*i);
+    }
+    for r in &rows {
+        a.u32(if rng.chance(1, 24) { rng.interesting() as u32 } else { *r });
+    }
+    let pool: &[u32] = if v5 { &[1, 3, 4, 5, 6, 7, 8] } else { &[1, 2, 3, 4, 5, 6, 7, 8] };
+    for _ in 0..nsec {
+        a.u32(if rng.chance(1, 16) { rng.below(12) as u32 } else { *rng.pick(pool) });
+    }
+    for pass in 0..2 {
+        for _ in 0..nunits * nsec {
+            let v = if rng.chance(1, 12) { rng.interesting() as u32 } else { rng.below(max_contrib as u64 + 1) as u32 };
+            a.u32(if pass == 0 { v } else { v / 2 });
+        }
+    }
+    if rng.chance(1, 8) {
+        let k = rng.usize(a.v.len() + 1);
+        a.v.truncate(k);
+    }
+    (a.v, present)
+}
